@@ -1920,7 +1920,8 @@ func (schema *Schema) visitJSONObject(settings *schemaValidationSettings, value 
 
 			if f := settings.defaultsSet; f != nil && value[propName] == nil {
 				if dflt := propSchema.Value.Default; dflt != nil && !reqRO && !repWO {
-					value[propName] = dflt
+					// the default belongs to the (shared) document: never alias it into the value
+					value[propName] = deepcopy.Copy(dflt)
 					settings.onceSettingDefaults.Do(f)
 				}
 			}
